@@ -43,6 +43,11 @@ CLAIMED = {
    note="Trusted: Coq kernel + vm_compute + primitive floats; harness; numpy complex elementary functions as oracles; mpmath for the 50-digit reference. Division, powers, log, sqrt, inverse functions involve branch selection and are NOT proved (semantic comparison only). numpy's complex multiply uses FMA even for 0-d arrays, so products are compared within 2^-49 x operand scale rather than bit-exactly. The O(h^2) truncation clause for non-polynomial f is not proved.",
    technique="Coq proof (ring/field reasoning over an abstract field) + vm_compute correspondence with oracle tables + 50-digit semantic comparison",
    design="4/C12"),
+ 'C11': dict(
+   text="Machine-checked proof (Coq 8.16.1) over guard facts REGENERATED from /repo's AST on every run (which _derivative_nonzero_order each of the five classes runs through the MRO, whether it reaches _raise_error_if_any_is_complex before the first stencil evaluation, which conditions are asserted): for every class and both complex-step methods, complex x or complex-valued f(x) yields ValueError and no value; multicomplex n >= 3 is rejected by the name assembly for every n (and n = 1, 2 accepted); fewer steps than the rule needs, Residue order <= pole_order, fd_weights/fd_derivative size misuse fail their guards for all sizes; size/path guards are present. The outcome (numbers / ValueError / other) of the real classes is compared with the guard model on the complete finite grid of misuse shapes each run, which is also the search.",
+   note="Trusted: Coq kernel; translator (structural reading of the guards; fail-closed) and harness. Exceptions raised by numpy itself for dtype reasons are outside the model and observed by the grid. The grid of misuse shapes is finite and enumerated completely.",
+   technique="Coq proof over translator-extracted guard structure + exhaustive outcome correspondence",
+   design="4/C11"),
 }
 REASON_TODO = "not claimed yet: the Coq model, theorems and correspondence for this property are still being built (see DESIGN.md section 8 for the order)"
 def main():
